@@ -47,6 +47,12 @@ def mangle(v):
 MANGLED = None
 
 
+def word_suffix(b, a):
+    # the value lost one leading word per synchronisation it went through
+    w = a.split(" ")
+    return any(b == " ".join(w[k:]) for k in range(1, len(w) + 1))
+
+
 def gen_cases(tier, seed):
     rng = random.Random(seed)
     cases, dist = [], {"single_key": 0, "random": 0, "values": {}}
@@ -177,7 +183,7 @@ def oracle(case, io, mo):
             if a is not None and a[2] == "D" and lb:
                 fails.append(("sync-revives-removed-key", "%s key %s: removed on the primary, live %r on the joiner" % (dbn, k, b[0])))
             elif la and lb and (b[0] == mangle(a[0])[0] or (a[0] == b[0] and a[1] != b[1]) or parse_i32(a[0].split(" ", 1)[0]) is not None
-                                or b[1] == -2 or (b[0] != a[0] and b[0] in MANGLED)):
+                                or b[1] == -2 or (b[0] != a[0] and b[0] in MANGLED) or word_suffix(b[0], a[0])):
                 # the catch-up line carries no version: the value's first word is taken for it (value mangled, or the
                 # line refused / the key marked in conflict when that word is a number), or the joiner numbers the
                 # write itself (same value, other version)
